@@ -128,3 +128,105 @@ Example collapse_example :
   check1 (Some [Some 2; None; Some 4]) 0 4 (-1) 1 = true /\ check1 (Some [Some 2; None; Some 4]) 0 4 1 1 = false
   /\ along 1 (slice1 0 5) (Dim [Dim [Sc 1; Sc 2]; Dim [Sc 3; Sc 4]]) = Dim [Dim [Sc 1; Sc 2]; Dim [Sc 3; Sc 4]].
 Proof. repeat split; reflexivity. Qed.
+
+(* --- collapse_slice2_rule, any number of sliced axes ------------------------------------------- *)
+Lemma set_dim_length : forall l k v, length (set_dim k v l) = length l.
+Proof. induction l as [|x l IH]; intros [|k] v; cbn; auto. Qed.
+Lemma set_dim_nth_same : forall l k v, (k < length l)%nat -> nth k (set_dim k v l) 0 = v.
+Proof. induction l as [|x l IH]; intros [|k] v H; cbn in *; try lia; auto. apply IH. lia. Qed.
+Lemma set_dim_nth_other : forall l k v j, j <> k -> nth j (set_dim k v l) 0 = nth j l 0.
+Proof. induction l as [|x l IH]; intros [|k] v [|j] H; cbn; auto; try congruence. Qed.
+Lemma set_dim_out_of_range : forall l k v, (length l <= k)%nat -> set_dim k v l = l.
+Proof. induction l as [|x l IH]; intros [|k] v H; cbn in *; auto; try lia. f_equal. apply IH. lia. Qed.
+
+Lemma slice_len_le : forall s e n, 0 <= n -> 0 <= slice_len s e n <= n.
+Proof. intros s e n Hn. unfold slice_len, clamp. lia. Qed.
+
+Definition nonneg (sh : list Z) : Prop := forall i, 0 <= nth i sh 0.
+
+Lemma step_shape_le : forall sh sp, nonneg sh ->
+  length (step_shape sh sp) = length sh /\ nonneg (step_shape sh sp) /\ forall i, nth i (step_shape sh sp) 0 <= nth i sh 0.
+Proof.
+  intros sh [[k s] e] Hn. unfold step_shape. split; [apply set_dim_length|].
+  destruct (Nat.lt_ge_cases k (length sh)) as [Hk|Hk].
+  - pose proof (slice_len_le s e (nth k sh 0) (Hn k)) as Hl. split; intro i.
+    + destruct (Nat.eq_dec i k) as [->|Hne]; [rewrite set_dim_nth_same by exact Hk; lia|rewrite set_dim_nth_other by exact Hne; apply Hn].
+    + destruct (Nat.eq_dec i k) as [->|Hne]; [rewrite set_dim_nth_same by exact Hk; lia|rewrite set_dim_nth_other by exact Hne; lia].
+  - rewrite set_dim_out_of_range by exact Hk. split; [exact Hn|intro; lia].
+Qed.
+
+Lemma mshape_le : forall specs sh, nonneg sh ->
+  length (mshape specs sh) = length sh /\ forall i, nth i (mshape specs sh) 0 <= nth i sh 0.
+Proof.
+  induction specs as [|sp r IH]; intros sh Hn; cbn [mshape]; [split; [reflexivity|intro; lia]|].
+  destruct (step_shape_le sh sp Hn) as (Hl & Hn' & Hle). destruct (IH _ Hn') as [Hl2 Hle2].
+  split; [congruence|]. intro i. specialize (Hle i). specialize (Hle2 i). lia.
+Qed.
+
+(* all steps 1 and the (truthful) output shape equals the input shape => the Slice is the identity, for every number of
+   sliced axes, arbitrary -- also non-constant -- axes, starts and ends *)
+Theorem collapse_slice2_sound : forall specs sh t,
+  has_shape sh t = true -> nonneg sh ->
+  (forall k s e, In (k, s, e) specs -> (k < length sh)%nat) ->
+  mshape specs sh = sh ->
+  mslice specs t = t.
+Proof.
+  induction specs as [|[[k s] e] r IH]; intros sh t Hs Hn Hax Hm; [reflexivity|].
+  cbn [mshape mslice] in *.
+  destruct (step_shape_le sh (k, s, e) Hn) as (Hl & Hn' & Hle). destruct (mshape_le r _ Hn') as [Hl2 Hle2].
+  assert (Hst : step_shape sh (k, s, e) = sh).
+  { apply (nth_ext _ _ 0 0 Hl). intros i _. specialize (Hle i). specialize (Hle2 i). rewrite Hm in Hle2. lia. }
+  assert (Hk : (k < length sh)%nat) by (apply (Hax k s e); left; reflexivity).
+  assert (Hlen : slice_len s e (nth k sh 0) = nth k sh 0).
+  { rewrite <- Hst at 2. unfold step_shape. now rewrite set_dim_nth_same. }
+  rewrite (collapse_slice2_sound_1axis sh t s e k Hs Hk Hlen).
+  rewrite Hst in Hm. apply (IH sh t Hs Hn); auto. intros k' s' e' Hin. apply (Hax k' s' e'). right. exact Hin.
+Qed.
+
+(* check2 accepts => any two runtime shapes the declarations denote (same binding of the symbol names) are equal *)
+Lemma sshape_eqb_denotes : forall val ds os sh sh',
+  sshape_eqb ds os = true -> denotes val ds sh -> denotes val os sh' ->
+  (forall d, In d ds -> d <> DUn) -> sh = sh'.
+Proof.
+  induction ds as [|d ds IH]; intros [|o os] sh sh' He Hd Ho Hun; cbn in He; try discriminate.
+  - destruct sh; [|contradiction]. destruct sh'; [reflexivity|contradiction].
+  - apply andb_true_iff in He as [H1 H2].
+    assert (Hun' : forall d', In d' ds -> d' <> DUn) by (intros; apply Hun; right; assumption).
+    destruct d as [x|n|], o as [y|m|]; cbn in H1; try discriminate.
+    + destruct sh as [|a sh]; [contradiction|]. destruct sh' as [|b sh']; [contradiction|].
+      cbn in Hd, Ho. destruct Hd as [-> Hd], Ho as [-> Ho]. apply Z.eqb_eq in H1. subst. f_equal. eapply IH; eauto.
+    + destruct sh as [|a sh]; [contradiction|]. destruct sh' as [|b sh']; [contradiction|].
+      cbn in Hd, Ho. destruct Hd as [-> Hd], Ho as [-> Ho]. apply Nat.eqb_eq in H1. subst. f_equal. eapply IH; eauto.
+Qed.
+Lemma sshape_eqb_no_unknown : forall ds os, sshape_eqb ds os = true -> forall d, In d ds -> d <> DUn.
+Proof.
+  induction ds as [|d ds IH]; intros [|o os] He x Hin; cbn in *; try discriminate; [contradiction|].
+  apply andb_true_iff in He as [H1 H2]. destruct Hin as [<-|Hin]; [destruct d, o; cbn in H1; discriminate|eauto].
+Qed.
+
+(* the rule-level statement: `_same_shape` accepted, the declarations are truthful for the input and for the output that
+   ONNX Slice produces => the Slice is the identity *)
+Theorem collapse_slice2_rule_sound : forall val ds os st specs sh t,
+  check2 (Some ds) (Some os) (Some st) = true ->
+  has_shape sh t = true -> nonneg sh ->
+  (forall k s e, In (k, s, e) specs -> (k < length sh)%nat) ->
+  denotes val ds sh -> denotes val os (mshape specs sh) ->
+  mslice specs t = t.
+Proof.
+  intros val ds os st specs sh t Hc Hs Hn Hax Hd Ho. unfold check2 in Hc. apply andb_true_iff in Hc as [_ He].
+  apply (collapse_slice2_sound specs sh t Hs Hn Hax). symmetry.
+  eapply sshape_eqb_denotes; eauto. eapply sshape_eqb_no_unknown; eauto.
+Qed.
+
+(* two unknown dims are not known to be equal: `==` on unnamed dims would let a real slice through *)
+Theorem collapse_slice2_unknown_dim_near_miss :
+  mslice [(0%nat, 1, INT64_MAX)] (Dim [Sc 1; Sc 2; Sc 3]) <> Dim [Sc 1; Sc 2; Sc 3] /\
+  check2 (Some [DUn]) (Some [DUn]) (Some [1]) = false /\ check2 (Some [DSy 0]) (Some [DSy 1]) (Some [1]) = false /\
+  check2 (Some [DSt 3]) (Some [DSt 3]) (Some [2]) = false /\ check2 (Some [DSt 3]) (Some [DSt 3]) None = false.
+Proof. repeat split; vm_compute; try reflexivity; discriminate. Qed.
+
+Example collapse2_example :
+  check2 (Some [DSt 2; DSy 0; DSt 2]) (Some [DSt 2; DSy 0; DSt 2]) (Some [1; 1]) = true /\
+  mshape [(2%nat, -9, 9); (0%nat, 0, 9)] [2; 3; 2] = [2; 3; 2] /\
+  mslice [(1%nat, 0, 5); (0%nat, -2, INT64_MAX)] (Dim [Dim [Sc 1; Sc 2]; Dim [Sc 3; Sc 4]]) = Dim [Dim [Sc 1; Sc 2]; Dim [Sc 3; Sc 4]].
+Proof. repeat split; reflexivity. Qed.
